@@ -7,5 +7,6 @@ CONSTANTS
   CloseLatches = TRUE
   TimeoutReleases = FALSE
   HandlerControlPath = TRUE
+  TimeoutFaultLatches = TRUE
 INVARIANTS TypeOK LockOK MsgIntact WholeFrames AfterClose InOrder ResultsHonest
 CHECK_DEADLOCK FALSE
